@@ -108,6 +108,12 @@ mutual
       | some ([src, each], r') => some (.splat src each, r')
       | _ => none
     | 'W' :: '(' :: r => (parseList r).map fun (es, r') => (E.tmplS es, r')
+    | 'K' :: r =>      -- a call: K<name>(args) / K<name>...(args)
+      let (nm, r1) := takeWhileC (fun c => c.isAlphanum || c == '_') r
+      match r1 with
+      | '.' :: '.' :: '.' :: '(' :: r2 => (parseList r2).map fun (es, r') => (E.call (String.ofList nm) es true, r')
+      | '(' :: r2 => (parseList r2).map fun (es, r') => (E.call (String.ofList nm) es false, r')
+      | _ => none
     | 'H' :: '0' :: '(' :: r => (parseList r).map fun (es, r') => (E.heredoc false es, r')
     | 'H' :: '1' :: '(' :: r => (parseList r).map fun (es, r') => (E.heredoc true es, r')
     | 'J' :: '(' :: r => match parseE r with
@@ -172,7 +178,7 @@ partial def showV : V → String
   | .num n => s!"n{n}"
   | .bool true => "t"
   | .bool false => "f"
-  | .null => "z"
+  | .null | .tnull _ => "z"
   | .str s => "s" ++ (if s.isEmpty then "-" else toHex s.toUTF8.toList)
   | .tuple vs | .listv vs => "l(" ++ ",".intercalate (vs.map showV) ++ ")"      -- the harness prints sequences and mappings alike
   | .obj its | .mapv its => "o(" ++ ",".intercalate (its.map fun (k, v) => (if k.isEmpty then "-" else toHex k.toUTF8.toList) ++ "=" ++ showV v) ++ ")"
@@ -208,6 +214,7 @@ partial def showE : E → String
     | ps' => "P(" ++ ",".intercalate (ps'.map showE) ++ ")"
   | .strip _ _ e => showE e
   | .heredoc fl ps => showE (.tmplS (heredocParts fl ps))
+  | .call name args expand => "K" ++ name ++ (if expand then "..." else "") ++ "(" ++ ",".intercalate (args.map showE) ++ ")"
   | .tmpl ps =>
     -- as the parser builds it: markers applied, a template of one literal is that literal
     match normTmpl none ps with
